@@ -88,6 +88,7 @@ func Families() []Named {
 		{"palindrome-ish", Parse("S", abc[:2], "S: TA S TA | TB S TB | TA | TB")},
 		{"literal-percent", &Spec{Start: "S", Tokens: []TokDecl{{Name: "TA"}}, Rules: []Rule{{L: "S", R: []string{"S", "'%'", "TA"}}, {L: "S", R: []string{"TA"}}}}},
 		{"literal-dquote", &Spec{Start: "S", Tokens: []TokDecl{{Name: "TA"}}, Rules: []Rule{{L: "S", R: []string{"S", "'\"'", "TA"}}, {L: "S", R: []string{"TA"}}}}},
+		{"literal-record-chars", &Spec{Start: "S", Tokens: []TokDecl{{Name: "TA"}}, Rules: []Rule{{L: "S", R: []string{"'{'", "S", "'}'"}}, {L: "S", R: []string{"S", "'|'", "TA"}}, {L: "S", R: []string{"'<'", "TA", "'>'"}}, {L: "S", R: []string{"TA"}}}}},
 		{"nonassoc-cmp", Parse("E", []string{"TA"}, "E: E '<' E | E '+' E | TA").WithPrec("nonassoc '<'", "left '+'")},
 	}
 }
